@@ -128,8 +128,10 @@ def _caching_ns_class() -> Any:
     from liquid.builtin.loaders.mixins import CachingLoaderMixin
 
     class CachingNSLoader(CachingLoaderMixin, NSLoader):  # type: ignore[misc]
-        def __init__(self, store: Store, *, auto_reload: bool = True, namespace_key: str = "", capacity: int = 300):
-            super().__init__(auto_reload=auto_reload, namespace_key=namespace_key, capacity=capacity)
+        def __init__(self, store: Store, *, auto_reload: bool = True, namespace_key: str = "", capacity: int = 300,
+                     thread_safe: bool = False):
+            super().__init__(auto_reload=auto_reload, namespace_key=namespace_key, capacity=capacity,
+                             thread_safe=thread_safe)
             NSLoader.__init__(self, store)
 
     return CachingNSLoader
@@ -139,6 +141,8 @@ def make_loaders(cfg: dict[str, Any], store: Store) -> tuple[Any, Any]:
     """(caching loader under test, factory of a fresh non-caching specification loader)."""
     kw = {"auto_reload": cfg["auto_reload"], "namespace_key": NSKEY if cfg["namespaced"] else "",
           "capacity": cfg["capacity"]}
+    if cfg["kind"] == "ns" and cfg["capacity"] in (2, 3):
+        kw["thread_safe"] = True  # the mixin's lock-protected cache (same observable behaviour required)
     k = cfg["kind"]
     if k == "dict":
         return liquid.CachingDictLoader(store.d1, **kw), lambda: liquid.DictLoader(store.d1)
@@ -195,6 +199,9 @@ class World:
             kw[NSKEY] = 0  # a falsy namespace value (e.g. user id 0)
         elif ns and ns.startswith("kw:"):
             kw[NSKEY] = ns[3:]
+        elif ns == "ctxnokey":
+            # a render context that does not define the namespace variable: the request names no namespace
+            kw["context"] = liquid.RenderContext(env.from_string(""), globals={"other": "u1"})
         elif ns and ns.startswith("ctx:"):
             kw["context"] = liquid.RenderContext(env.from_string(""), globals={NSKEY: ns[4:]})
         elif ns and ns.startswith("both:"):
@@ -234,13 +241,15 @@ class World:
 # ---------------------------------------------------------------------------
 def cache_key(cfg: dict[str, Any], act: dict[str, Any]) -> str:
     ns = act.get("ns")
-    if cfg["namespaced"] and ns:
+    if cfg["namespaced"] and ns and ns != "ctxnokey":
         return f"{ns.split(':', 1)[1]}/{act['name']}"
     return act["name"]
 
 
 def source_path(cfg: dict[str, Any], act: dict[str, Any]) -> str:
     ns = act.get("ns")
+    if ns == "ctxnokey":
+        return act["name"]
     if cfg["kind"] == "ns" and ns:
         return f"{ns.split(':', 1)[1]}/{act['name']}"
     if cfg["kind"] == "choicens" and ns and ns.split(":", 1)[1] == "u1" and act["name"] in ("a", "b"):
@@ -289,6 +298,8 @@ def alphabet(cfg: dict[str, Any], tier: str) -> list[dict[str, Any]]:
     lean = tier == "quick" and (cfg["capacity"] >= 3 or cfg["kind"] == "fs")
     if cfg["namespaced"]:
         nss: list[Optional[str]] = [None, "kw:u1", "ctx:u1", "both:u1", "kw:u2"]
+        if cfg["capacity"] == 1 or tier != "quick":
+            nss.append("ctxnokey")
         if cfg["kind"] == "ns":
             nss.append("kw:0")
 
